@@ -30,10 +30,16 @@ def mk_object(kind, history, nsym=2):
         from cogent3.util.deserialise import deserialise_object
 
         _ = TOTAL
-        if not W.PLAIN:
-            from crosshair import deep_realize
+        code, untraced = W.concrete(code)
+        with untraced:
+            return body(code)
 
-            code = deep_realize(code)
+    def body(code):
+        import json
+
+        import cogent3
+        from cogent3.util.deserialise import deserialise_object
+
         ra = ""
         for _i in range(nsym):
             ra += _ROW_A[code % NA]
@@ -92,10 +98,16 @@ def mk_table_object(history):
         from cogent3.util.deserialise import deserialise_object
 
         _ = TOTAL
-        if not W.PLAIN:
-            from crosshair import deep_realize
+        code, untraced = W.concrete(code)
+        with untraced:
+            return body(code)
 
-            code = deep_realize(code)
+    def body(code):
+        import json
+
+        from cogent3 import make_table
+        from cogent3.util.deserialise import deserialise_object
+
         xs, ys = [], []
         for _i in range(2):
             xs.append(code % 3)
@@ -137,10 +149,15 @@ def mk_dictarray_object(kind):
         from cogent3.util.deserialise import deserialise_object
 
         _ = TOTAL
-        if not W.PLAIN:
-            from crosshair import deep_realize
+        code, untraced = W.concrete(code)
+        with untraced:
+            return body(code)
 
-            code = deep_realize(code)
+    def body(code):
+        import json
+
+        from cogent3.util.deserialise import deserialise_object
+
         v = []
         for _i in range(3):
             v.append(code % 3)
